@@ -259,6 +259,7 @@ func ruleC14(w *World, r *Report) {
 	ruleC14Scratch(w, r)
 	ruleC14EveryMarker(w, r)
 	ruleC14Consumer(w, r)
+	ruleC14More(w, r)
 	// UpdateForwardingParameters only under op == update; ForwardingParameters only under op == create
 	opUpdate := w.ConstInt(P, pfcpPkg, "update")
 	opCreate := w.ConstInt(P, pfcpPkg, "create")
@@ -541,4 +542,106 @@ func ruleC14Consumer(w *World, r *Report) {
 		}
 		r.floor("R14.7 receive loop of "+owner+".endMarkerSendLoop", n, 1)
 	}
+}
+
+// ruleC14More (R14.8, R14.9).
+func ruleC14More(w *World, r *Report) {
+	const P = "C14"
+	// R14.8: SNDEM is bit 2 of the PFCPSMReq-Flags octet, independent of the other bits. Once the octet was
+	// read, every path looks at that bit: no other test on the octet (DROBU, QAURR) can stand in front of it
+	// and take the decision away.
+	{
+		f := w.Fn(P, "pfcpiface.(*far).parseFAR")
+		has2 := w.Fn(P, "pfcpiface.has2ndBit")
+		n := 0
+		allInstrs(f, func(i ssa.Instruction) {
+			c, ok := i.(*ssa.Call)
+			if !ok || !strings.HasSuffix(calleeName(c), "ie.IE).PFCPSMReqFlags") {
+				return
+			}
+			n++
+			errV := extractOf(c, 1)
+			var start ssa.Instruction
+			for _, b := range f.Blocks {
+				for _, sc := range b.Succs {
+					if errV != nil && nilnessEdge(b, sc, func(x ssa.Value) bool { return x == errV }, true) && len(sc.Instrs) > 0 {
+						start = sc.Instrs[0]
+					}
+				}
+			}
+			if start == nil {
+				r.bad("R14.8", w.FuncName(f), "the flags octet's read error is examined", w.Pos(c.Pos()), "no err == nil edge after PFCPSMReqFlags()")
+				return
+			}
+			flags := extractOf(c, 0)
+			looksAtBit := func(j ssa.Instruction) bool {
+				hc, ok := j.(*ssa.Call)
+				if ok && staticCallee(hc) == has2 && len(hc.Call.Args) == 1 && hc.Call.Args[0] == flags {
+					return true
+				}
+				// flags & 0x02 written out
+				if bo, ok := j.(*ssa.BinOp); ok && bo.Op == token.AND && bo.X == flags {
+					if k, isK := constInt(bo.Y); isK && k == 2 {
+						return true
+					}
+				}
+				return false
+			}
+			// from the successful read: the next IE (loop head) or the return must not be reached without the test
+			hdrOrRet := func(j ssa.Instruction) bool {
+				if isReturn(j) {
+					return true
+				}
+				// the range loop's header: a block that dominates the read and is re-entered
+				b := j.Block()
+				return b.Dominates(c.Block()) && b != c.Block() && reachesBlock(c.Block(), b) && j == b.Instrs[0] && blockIf(b) != nil
+			}
+			miss := reach(f, start, hdrOrRet, looksAtBit, nil)
+			if looksAtBit(start) {
+				miss = nil
+			}
+			r.check(miss == nil, "R14.8", w.FuncName(f), "the SNDEM bit is examined whatever the other bits of the octet are", w.Pos(c.Pos()), "bit 2 tested on every path after the read", "after the PFCPSMReq-Flags octet was read, a path leaves the IE without looking at bit 2 (another flag of the octet is handled first and ends the decision): an Update FAR that sets SNDEM together with that flag re-programs the tunnel and no End Marker is sent to the old one")
+		})
+		r.floor("R14.8 reads of the PFCPSMReq-Flags octet", n, 1)
+	}
+	// R14.9: only an Update FAR can produce an End Marker: UpdateFAR — the only place markers are built — is
+	// called from the Update FAR loop of the modification handler, with the FAR parsed from an Update FAR IE.
+	{
+		mod := w.Fn(P, "pfcpiface.(*PFCPConn).handleSessionModificationRequest")
+		upd := w.Fn(P, "pfcpiface.(*PFCPSession).UpdateFAR")
+		parse := w.Fn(P, "pfcpiface.(*far).parseFAR")
+		n := 0
+		for _, e := range w.CG().callersOf(upd) {
+			cn := w.FuncName(e.Caller)
+			if strings.HasPrefix(cn, "test/") {
+				continue
+			}
+			n++
+			if e.Caller != mod {
+				r.bad("R14.9", cn, "End Markers are built for Update FARs only", w.Pos(e.Site.Pos()), cn+" calls UpdateFAR (which builds End Markers)")
+				continue
+			}
+			// the FAR handed over was parsed from an element of smreq.UpdateFAR
+			farArg := e.Site.(ssa.CallInstruction).Common().Args[1]
+			okU := false
+			for _, pc := range callsTo(mod, parse) {
+				if pc.Common().Args[0] == farArg || sameCell(pc.Common().Args[0], farArg) {
+					if strings.Contains(symOf(pc.Common().Args[1]).String(), "UpdateFAR") {
+						okU = true
+					} else {
+						okU = false
+						break
+					}
+				}
+			}
+			r.check(okU, "R14.9", cn, "End Markers are built for Update FARs only", w.Pos(e.Site.Pos()), "FAR parsed from an Update FAR IE", "UpdateFAR is called with a FAR that was parsed from another IE (a Create FAR): parseFAR sets sendEndMarker whatever the operation, so a creation can emit an End Marker — 'creations emit none'")
+		}
+		r.floor("R14.9 callers of UpdateFAR", n, 1)
+	}
+}
+
+func sameCell(a, b ssa.Value) bool {
+	ra, okA := a.(*ssa.Alloc)
+	rb, okB := b.(*ssa.Alloc)
+	return okA && okB && ra == rb
 }
